@@ -218,8 +218,7 @@ func c20EmitEval(o *Out, ps string, doc string) bool {
 		o.violation("C20", "Extract panicked", map[string]string{"path": ps, "doc": doc})
 		return false
 	}
-	// the reference evaluation of the printed path on the same tree, in the model's notation; an error where the
-	// reference selects nothing counts as "nothing selected"
+	// the reference evaluation of the path on the same tree, in the model's notation
 	if perr == nil {
 		// the steps are read from the path text itself: the printed form of a path that ends in ..a is ..a.a
 		stepText := ps[1:]
@@ -234,9 +233,6 @@ func c20EmitEval(o *Out, ps string, doc string) bool {
 				rb.WriteByte('\n')
 			}
 			ref := rb.String()
-			if obs == "E" && ref == "O" {
-				ref = "E"
-			}
 			o.emit("A", "c20.eval", [][]byte{[]byte(ps), []byte(w.String())}, []byte(obs), []byte(ref), true)
 			o.count("model_eval_cases_with_reference", 1)
 		} else {
